@@ -40,7 +40,55 @@ def classify(fn):
         if "also_allow" in cells:
             a = cells["also_allow"].cell_contents
             return f"ML{tuple(a) if a else ()}-{fn.__name__[4:]}"
-    return f"UNKNOWN({getattr(fn, '__qualname__', fn)!r})"
+    return behavioural_class(fn)
+
+
+_IMPORT_ONLY = asm(("GLOBAL", ("vp_sink", "other")), "STOP")
+
+
+def behavioural_class(fn):
+    """Classify a binding the structural rules do not recognise (e.g. after a refactoring of the hooks) by what it does
+    with two probe pickles; load-like functions take a stream, loads-like functions take bytes."""
+    import vp_sink
+    from fickling.exception import UnsafeFileError
+
+    def call(data):
+        vp_sink.reset()
+        try:
+            try:
+                fn(io.BytesIO(data))
+                kind = "load"
+            except TypeError:
+                fn(data)
+                kind = "loads"
+            return kind, "returned", None
+        except UnsafeFileError as e:
+            return None, "unsafe", e
+        except Exception as e:  # noqa: BLE001
+            return None, "raised", e
+        finally:
+            pass
+
+    kind, how, exc = call(FLAGGED)
+    executed = bool(vp_sink.LOG)
+    vp_sink.reset()
+    if kind is None:
+        # find out which calling convention it has
+        try:
+            fn(io.BytesIO(b"N."))
+            kind = "load"
+        except Exception:  # noqa: BLE001
+            kind = "loads"
+    if executed or how == "returned":
+        return f"ORIG-{kind}"
+    if how == "unsafe" and isinstance(getattr(exc, "info", None), dict):
+        return "CHECKED"
+    if how == "unsafe":
+        _k, how2, _e = call(_IMPORT_ONLY)
+        vp_sink.reset()
+        adds = tuple(EXTRA) if how2 == "returned" else ()
+        return f"ML{adds}-{kind}"
+    return f"UNKNOWN({getattr(fn, '__qualname__', fn)!r}:{how})"
 
 
 def expected(sym, slot):
